@@ -71,6 +71,13 @@ package hashgraph
 //@   ensures[valid] ret0 ==> EventSigOK(e)
 //@   loop 1 invariant[itxs] forall k int :: 0 <= k && k < __idx() ==> ItxSigOK(e.Body.InternalTransactions[k])
 
+// Signing fills in the signature over the hash of the body as it is at the call; the body is not touched.
+//@ func (e *Event) Sign(privKey *ecdsa.PrivateKey) error
+//@   requires e != nil
+//@   modifies e.Signature
+//@   ensures[signed] ret0 == nil ==> keys.SignedBy(privKey, BodyHash(e.Body), e.Signature)
+//@   ensures[kept]   ret0 != nil ==> e.Signature == old(e.Signature)
+
 // ------------------------------------------------------------------------------------------------
 // Ghost view of a Store (assumed at interface call sites; see the conform obligations for InmemStore).
 //   events   hash -> event          last     creator key -> hash of the creator's last event ("" if none)
